@@ -2,7 +2,7 @@ INIT MInit
 NEXT MNext
 CONSTANTS
   Bounds <- BoundsQ
-  ReqSet <- ReqsSmall
+  ReqSet <- ReqsOne
   ReadAttrs <- UrlAttrs
   Depth = 0
   SharedUriSlot = TRUE
